@@ -1593,6 +1593,13 @@ def directed_par_atomic_cases(full):
             ('in_loop', {'k': 'for', 'idx': 'i1', 'a': C(0), 'b': C(2), 'st': C(1), 'cs': [], 'ms': [],
                          'body': {'k': 'amc', 'subs': [par([['A', ['+', V('p1'), V('i1')]]], x='i1'), _const(V('p2'), 'B')],
                                   'cs': [], 'ms': []}}),
+            # the second code path of ArithmeticPT (build_waveform below an atomic composite) next to the first
+            ('ari_in_amc', {'k': 'amc', 'cs': [], 'ms': [], 'subs': [
+                {'k': 'ari', 'inner': par([['A', V('p1')]]), 'op': '+', 'side': 'r', 'sa': [], 'sc': [['A', V('p2')]]},
+                _const(V('p2'), 'B')]}),
+            ('ari_td_in_amc', {'k': 'amc', 'cs': [], 'ms': [], 'subs': [
+                {'k': 'ari', 'inner': d_target(tk, 'p0', 'A'), 'op': '*', 'side': 'l', 'sa': [V('p1')], 'sc': [], 'td': True},
+                _const(V('p2'), 'B')]}),
         ]
         for j, (name, tree) in enumerate(trees):
             if not (sympy_ok(strip_tags(tree)) and constructible(strip_tags(tree))):
